@@ -194,6 +194,42 @@ def engine_programs(rng, n):
     return out
 
 
+def definition_churn(ctx, n, mode):
+    """History: n DIFFERENT definitions of a cacheable node with the same name, output name and arguments are
+    created, run against ONE shared cache and dropped (all references released) one after the other.  Every run
+    must invoke its own function exactly once and return its own value: an entry is never served to another
+    definition, however the interpreter recycles the dropped function objects."""
+    import gc
+    backend = InMemoryCache()
+    for i in range(n):
+        nd = IR.func("F", ["x"], ["r"], cache=True, tname=f"F{i}", deftag=f"definition {i}")
+        prog = IR.prog("top", [nd])
+        rt = build.Runtime(prog)
+        with warnings.catch_warnings():
+            warnings.simplefilter("ignore")
+            g = build.build_graph(rt, prog)
+            kw = dict(error_handling="continue", on_internal_override="ignore")
+            if mode == "sync":
+                r = SyncRunner(cache=backend).run(g, {"x": "in.x"}, **kw)
+            else:
+                r = asyncio.run(AsyncRunner(cache=backend).run(g, {"x": "in.x"}, **kw))
+        ctx.count()
+        ctx.traces()
+        want = f"F{i}.r(x=in.x)"
+        got = r.values.get("r")
+        wit = {"history": "definition-churn", "index": i, "mode": mode, "expected": want, "observed": got, "invocations": len(rt.log)}
+        if got != want:
+            ctx.violation("entry-served-to-other-node:recycled-function-object", wit,
+                          f"definition {i} (created after earlier definitions were dropped) returned {got}, its own function returns {want}")
+            return
+        if len(rt.log) != 1:
+            ctx.violation("invocations-of-new-definition", wit, f"definition {i} was invoked {len(rt.log)} times on its first run")
+            return
+        del g, rt, r, nd, prog
+        gc.collect()
+    ctx.bump("definition_churn_runs", n)
+
+
 def real_seq(job, backend):
     """Run the job's sequence on the real runners sharing `backend`.  One graph object per program (the
     alternative program `alt` shares the Runtime, hence function objects), fresh call log per run."""
@@ -313,10 +349,12 @@ def run(tier, seed):
     thorough = tier == "thorough"
     run_store(ctx, thorough, rng)
     run_engine(ctx, thorough, rng)
+    for mode in ("sync", "async"):
+        definition_churn(ctx, 400 if thorough else 120, mode)
     ctx.assumptions += ["CacheStore.tla: a disk entry is two writes (payload, HMAC); crash between them, bit flip, truncation, type change, missing signature / payload are environment actions; every history of the bounded model is replayed on a real DiskCache (tampering through a second diskcache handle; pickle.loads spied)",
                         "LRUCache.tla histories are replayed on InMemoryCache(max_size)",
                         "engine level: HGEngine.tla keys an entry by (function definition, output names, arguments by original parameter); TLC checks transparency and at-most-once against the uncached model run (HGProps!C09)"]
-    return ctx.finish(rule="store: all operation histories (set, torn set, 6 corruption classes, get) of length 3 (quick; + sampled length 4) / 4 (thorough) over 2 keys x 2 values on DiskCache; all set/get histories of length 4-5 over 3 keys for LRU capacities 1,2,3,unbounded; engine: random gated/cyclic programs with random cacheable subsets + shared-function programs x run sequences of length 2-3 mixing runners x capacities; distinct = structural hash / history")
+    return ctx.finish(rule="store: all operation histories (set, torn set, 6 corruption classes, get) of length 3 (quick; + sampled length 4) / 4 (thorough) over 2 keys x 2 values on DiskCache; all set/get histories of length 4-5 over 3 keys for LRU capacities 1,2,3,unbounded; engine: random gated/cyclic programs with random cacheable subsets + shared-function programs x run sequences of length 2-3 mixing runners x capacities; definition churn: 120/400 different definitions of one node created, run against one cache and dropped in turn; distinct = structural hash / history")
 
 
 def replay(path):
